@@ -307,3 +307,20 @@ def check(program: Program, run: Run) -> None:
         if not ok:
             run.finding(f"C18/special-case:Interval.get_sql:{attr}", f"the {unit} special case renders {txt!r} from {holes}; expected the stored {attr} value, untrimmed, with unit {unit}", where=gs.loc(), rule="R4")
     run.info("C18/info:abs-non-leading", "negative non-leading components lose their sign (abs); outside the property's quantifier (negative leading components)")
+    _inherit_ctx_bypass(program, run)
+
+
+def _inherit_ctx_bypass(program, run):
+    """the quoting form of the literal is chosen from ctx.dialect inside Interval.get_sql: every slot that can hold an
+    Interval must therefore render it through get_sql(ctx); a str()/format bypass prints the default dialect's form"""
+    from ..report import Run as _Run
+    from . import c08
+    sub = _Run("C08", run.tier)
+    c08.check(program, sub)
+    for fd in sub.findings:
+        if not fd.info and fd.key.startswith("C08/ctx-bypass:"):
+            run.finding("C18/dialect-form-bypass:" + fd.key.split(":", 1)[1], "an Interval in this position is written in the default dialect's quoting form: " + fd.what,
+                        where=fd.where, rule="inherited from C08/R1")
+    n = sum(1 for o in sub.obligations if o.rule.startswith("C08/R1 dialect fields inherited"))
+    run.ob("C18 (inherited from C08/R1) no child node is formatted with str()/format instead of get_sql(ctx)", "package",
+           not any(fd.key.startswith("C08/ctx-bypass:") for fd in sub.findings if not fd.info), detail=f"{n} nested render sites examined by C08/R1")
